@@ -53,6 +53,15 @@ fn explore_history(r: &Run, id: &str) {
 }
 
 pub fn run(id: &str, tier: Tier) -> i32 {
+    if std::env::var("NVCHECK_ONLY_DEEP").is_ok() {
+        // measurements only: the deep-tower phase without the check's main enumeration (never used by a registered command)
+        let ids = ["C01", "C02", "C03", "C06", "C07", "C11", "C12", "C14", "C16"];
+        let Some(sid) = ids.iter().find(|x| **x == id) else { return 2 };
+        let r = Run::new(sid, tier);
+        start_watchdog(sid);
+        guarded(&r, || deep::run(&r, id));
+        return r.finish();
+    }
     let run = run_check(id, tier);
     let run = match run {
         Some(r) => r,
